@@ -9,7 +9,8 @@ Oracles (all must hold, per flow, order kept):
   * listify(get_state()) of loaded == of original (tnetstring has no tuple type: tuples compare as lists);
   * observe(loaded) == observe(original): every attribute read back through plain attribute access, not get_state —
     so a field dropped symmetrically from get_state/set_state is still noticed;
-  * for flows without post-backup edits: observe(loaded) == expected(descriptor) (predicted from the descriptor alone).
+  * for flows without post-backup edits: observe(loaded) == expected(descriptor) (predicted from the descriptor alone);
+  * for flows carrying a backup: revert() on the loaded flow yields the same state as revert() on the original.
 (Byte-identical re-saving is NOT asserted: tnetstring writes dict items in reverse order, so nested dicts such as
 metadata or a backup come back in reversed key order, which is the same state.)
 Part B (reader totality).  Inputs: arbitrary byte strings biased to tnetstring tokens, structurally mutated valid
@@ -136,6 +137,19 @@ def check_roundtrip(descs, ctx):
             diff = _first_diff(e, o, "")
             if diff:
                 ctx.fail("attr-vs-descriptor:%s:%s" % (kind, _field_of(diff)), diff)
+        if d.get("backup") is not None:
+            # a backup that went through the file must still work: reverting the loaded flow gives what reverting
+            # the original gives
+            try:
+                f.revert()
+                g.revert()
+            except Exception as e:
+                ctx.crash(e, "revert-after-load-crash")
+                continue
+            diff = _first_diff(fg.listify(f.get_state()), fg.listify(g.get_state()), "") or \
+                _first_diff(_cmp_obs(fg.observe(f)), _cmp_obs(fg.observe(g)), "")
+            if diff:
+                ctx.fail("revert-after-load-differs:%s:%s" % (kind, _field_of(diff)), diff)
 
 
 def _digestable(x):
